@@ -32,12 +32,13 @@ theorem value_heap_upd_other (s : State) (a : Nat) (x : Arr) (l : Nat) (c : Coor
   show upd s.heap a x (s.layers l).data c = _
   rw [upd_other _ _ _ _ h]
 
-theorem value_cellAttrWrite {s : State} (hw : WF s) {l : Nat} (hl : l < s.nLayers) (n : String)
+theorem value_cellAttrWrite {s : State} (hw : WF s) (hi : s.impl = .new) {l : Nat} (hl : l < s.nLayers) (n : String)
     (hn : s.named? n ≠ some l) (c : Coord) (v : Int) (c' : Coord) :
     (cellAttrWrite s n c v).value l c' = s.value l c' := by
   unfold cellAttrWrite
   split
   · next lid hlid =>
+    rw [hw.descr_eq hi n] at hlid
     apply value_heap_upd_other
     intro he
     have := hw.data_inj l lid hl (hw.att_lt n lid hlid) he
@@ -50,7 +51,7 @@ theorem value_writeEmpty {s : State} (hw : WF s) {l : Nat} (hl : l < s.nLayers)
     (writeEmpty s c v).value l c' = s.value l c' := by
   unfold writeEmpty
   split
-  · next hi => exact value_cellAttrWrite hw hl "empty" (fun h => hn ⟨hi, h⟩) c v c'
+  · next hi => exact value_cellAttrWrite hw hi hl "empty" (fun h => hn ⟨hi, h⟩) c v c'
   · next hi =>
     apply value_heap_upd_other
     exact hw.legacy_data hi l hl
@@ -68,7 +69,7 @@ theorem value_afterLeave {s : State} (hw : WF s) {l : Nat} (hl : l < s.nLayers)
 
 /-- changing only the agents changes no layer value and none of the tables -/
 theorem withAgents_wf {s : State} (hw : WF s) (ag : List (Nat × Coord)) : WF { s with agents := ag } :=
-  hw.of_sameShape ⟨rfl, rfl, rfl, rfl, rfl, rfl, rfl, rfl, rfl⟩
+  hw.of_sameShape ⟨rfl, rfl, rfl, rfl, rfl, rfl, rfl, rfl, rfl, rfl⟩
 
 theorem value_setCells {s : State} (hw : WF s) {l : Nat} (hl : l < s.nLayers) (l' : Nat) (v : Int)
     (cond : Option (Int → Bool)) (hne : l' ≠ l) (c : Coord) : (setCells s l' v cond).1.value l c = s.value l c := by
@@ -150,11 +151,12 @@ theorem value_stable {s : State} (hw : WF s) {l : Nat} (hl : l < s.nLayers) (op 
     simp only [step]; unfold cellSet
     have hn : s.named? n ≠ some l := hno
     split
-    · split
+    · next hi =>
+      split
       · rfl
       · split
         · rfl
-        · exact value_cellAttrWrite hw hl n hn c' _ c
+        · exact value_cellAttrWrite hw hi hl n hn c' _ c
     · split
       · rfl
       · next lid hlid =>
